@@ -116,6 +116,111 @@ from . import replay_ext  # noqa: E402
 replay_ext.HANDLERS["c13_ec"] = _replay
 
 
+@core.task_fn("c13_join")
+def run_join(task: dict) -> dict:
+    """join_with_limit / expected / expected_labels with a SYMBOLIC limit (and enumerated item lengths).
+
+    The functions depend on their items only through lengths, so lengths are enumerated
+    and the limit is a solver variable: never raises, returns a str, len(result) <= limit
+    whenever limit > 0 (the docstring's promise), result == plain join when that fits.
+    """
+    import itertools
+
+    res = core.new_result(task["unit"])
+    ex = famcheck.copy_a().modules["pest.exceptions"]
+    jwl = ex.join_with_limit
+    for lens in task["lens"]:
+        items = ["abcdefgh"[:n] if n else "" for n in lens]
+        for sep, last in ((", ", " or "), (", ", None), ("", "|")):
+            key = f"{lens}/{sep!r}/{last!r}"
+            eng = Engine()
+            holder = {}
+
+            def fn(e, items=items, sep=sep, last=last):
+                lim = e.int_var("limit", -3, 60)
+                holder["lim"] = lim
+                try:
+                    r = jwl(list(items), sep, last, symx.SymInt(lim))
+                except (symx.Unsupported, symx.Inconclusive):
+                    raise
+                except Exception as exn:  # noqa: BLE001
+                    return [("raises", f"{type(exn).__name__}: {exn}")], None
+                out = []
+                if not isinstance(r, str):
+                    return [("type", f"returned {type(r).__name__}")], None
+                if not e.implied(z3.Or(lim <= 0, len(r) <= lim)):
+                    out.append(("too-long", f"len(result)={len(r)} may exceed limit"))
+                full = (sep.join(items[:-1]) + last + items[-1]) if last and len(items) > 1 else sep.join(items)
+                if r != full and e.branch(lim >= len(full)) and items:
+                    out.append(("truncated-although-it-fits", f"{r!r} instead of {full!r}"))
+                return out, r
+
+            try:
+                for pr in eng.explore(fn, max_paths=2000):
+                    if pr.status != "ok":
+                        res["inconclusive"].append((key, f"{pr.status}: {pr.reason}"))
+                        continue
+                    fails, r = pr.value
+                    lim = pr.model["limit"]
+                    try:
+                        cr = jwl(list(items), sep, last, lim)
+                    except Exception as exn:  # noqa: BLE001
+                        cr = f"EXC {type(exn).__name__}"
+                    if fails and fails[0][0] == "raises":
+                        ok = isinstance(cr, str) and cr.startswith("EXC")
+                    else:
+                        ok = cr == r
+                    if not ok:
+                        res["harness_errors"].append(f"C13 join path/concrete mismatch {key} limit={lim}: {r!r} vs {cr!r}")
+                        continue
+                    res["validated"] += 1
+                    res["accepting"] += 1
+                    if len(res["samples"]) < 1 and len(items) >= 2:
+                        res["samples"].append({"fn": "join_with_limit", "item_lengths": list(lens), "limit": lim, "result": cr})
+                    if fails:
+                        res["failures"].append(
+                            {
+                                "key": key,
+                                "kind": ",".join(f[0] for f in fails),
+                                "detail": " | ".join(f[1] for f in fails),
+                                "witness": {"items": items, "sep": sep, "last": last, "limit": lim},
+                                "pc": z3.simplify(core.pc_formula(pr.pc)).sexpr(),
+                                "vars": ["limit"],
+                                "status": "new",
+                                "finding": None,
+                                "replay": {"type": "c13_join", "module": "vf.c13x", "items": items, "sep": sep, "last": last, "limit": lim},
+                            }
+                        )
+            except symx.Inconclusive as e:
+                res["inconclusive"].append((key, str(e)))
+            core.absorb_engine(res, eng)
+    return res
+
+
+def _replay_join(spec):
+    from . import pestenv
+
+    cp = pestenv.load_copy()
+    jwl = cp.modules["pest.exceptions"].join_with_limit
+    items, sep, last, lim = spec["items"], spec["sep"], spec["last"], spec["limit"]
+    try:
+        r = jwl(list(items), sep, last, lim)
+    except Exception as e:  # noqa: BLE001
+        return [("raises", f"{type(e).__name__}: {e}")]
+    out = []
+    if not isinstance(r, str):
+        return [("type", type(r).__name__)]
+    if lim > 0 and len(r) > lim:
+        out.append(("too-long", f"{len(r)} > {lim}"))
+    full = (sep.join(items[:-1]) + last + items[-1]) if last and len(items) > 1 else sep.join(items)
+    if items and lim >= len(full) and r != full:
+        out.append(("truncated-although-it-fits", f"{r!r} vs {full!r}"))
+    return out
+
+
+replay_ext.HANDLERS["c13_join"] = _replay_join
+
+
 def extra(tier, seed, known):
     nmax = 4 if tier == "quick" else 6
     regions = known.regions_for("C13")
@@ -124,7 +229,14 @@ def extra(tier, seed, known):
         for n in range(0, nmax + 1 if variant == "nl" else min(nmax, 4) + 1):
             unit = f"error_context/{variant}/n{n}"
             tasks.append({"fn": "c13_ec", "unit": unit, "n": n, "variant": variant, "regions": {k[len(unit) + 1 :]: v for k, v in regions.items() if k.startswith(unit + "|")}})
-    return tasks, {"error_context_units": len(tasks)}
+    import itertools
+
+    maxlen, maxitems = (4, 3) if tier == "quick" else (7, 4)
+    lens = [()] + [t for k in range(1, maxitems + 1) for t in itertools.product(range(0, maxlen + 1, 1 if tier != "quick" or k < 3 else 2), repeat=k)]
+    chunk = 12
+    for i in range(0, len(lens), chunk):
+        tasks.append({"fn": "c13_join", "unit": f"join_with_limit/{i // chunk:03d}", "lens": lens[i : i + chunk]})
+    return tasks, {"error_context_units": len([t for t in tasks if t["fn"] == "c13_ec"]), "join_with_limit_units": len([t for t in tasks if t["fn"] == "c13_join"])}
 
 
 famdriver.EXTRA["C13"] = extra
